@@ -85,6 +85,14 @@ Inductive c04_defect :=
   | D4UnwrapSiblingNonFinite (* unwrap.go:453-522,783-982: json.Marshal of NaN / Inf fails *)
   | D4UnwrapSiblingNegZero  (* unwrap.go:951-982: `x.F != 0` drops -0.0 *)
   | D4EnumCodecUnknown      (* enum_encoding.go:142-178: an undefined number is written as "99" and not read back *)
+  | D4OneofMemberIsDiscriminator (* oneof_discriminator.go: a member of a discriminated oneof whose JSON name is that oneof's
+                               discriminator (the collision check skips the oneof's own members): the discriminator value
+                               overwrites the member's value *)
+  | D4FlatVariantFieldIsVariant (* oneof_discriminator.go generateFlattenedMarshal: the variant's keys are merged into the
+                               parent object and then `delete(raw, "<variant>")` runs: a child field whose JSON name is the
+                               variant field's own JSON name is deleted with it *)
+  | D4FlatVariantBoolMap     (* oneof_discriminator.go:228-251: json.Marshal of a variant with a populated map<bool, T> fails
+                               ("unsupported type: map[bool]"), the error is swallowed and the variant is dropped *)
   | D4EmptyNullEpochTs.     (* empty_behavior.go: NULL on a Timestamp field: the epoch has proto.Size 0, is written as null,
                                read back as {} and protojson rejects {} for a Timestamp *)
 
@@ -98,6 +106,9 @@ Definition c04_defect_str (d : c04_defect) : str :=
   | D4UnwrapSiblingNonFinite => s "unwrap-sibling-nonfinite-float"
   | D4UnwrapSiblingNegZero => s "unwrap-sibling-negative-zero"
   | D4EnumCodecUnknown => s "enum-codec-unknown-number"
+  | D4OneofMemberIsDiscriminator => s "oneof-member-named-like-discriminator"
+  | D4FlatVariantFieldIsVariant => s "flat-oneof-child-field-named-like-variant"
+  | D4FlatVariantBoolMap => s "flat-oneof-variant-bool-keyed-map-dropped"
   | D4EmptyNullEpochTs => s "empty-null-epoch-timestamp"
   end.
 
@@ -234,7 +245,26 @@ Definition local_defects (md : message) (m : mval) : list c04_defect :=
                   end
               | None => []
               end
-            else []) (m_oneofs md)
+            else []) (m_oneofs md) ++
+          (if existsb (fun o => oneof_cfg o &&
+                                match find_oneof_member md m o with
+                                | Some f => str_eqb (jn f) (o_discriminator o)
+                                | None => false end) (m_oneofs md) then [D4OneofMemberIsDiscriminator] else []) ++
+          (if existsb (fun o => oneof_cfg o && o_flatten o &&
+                                match find_oneof_member md m o with
+                                | Some f => match mget m (f_name f) with
+                                            | Some (FM sub) => existsb (fun e => str_eqb (json_name (fst e)) (jn f) || str_eqb (fst e) (jn f)) sub
+                                            | _ => false end
+                                | None => false end) (m_oneofs md) then [D4FlatVariantFieldIsVariant] else []) ++
+          (if existsb (fun o => oneof_cfg o && o_flatten o &&
+                                match find_oneof_member md m o with
+                                | Some f => match mget m (f_name f), lookup_message sc (msg_name (f_kind f)) with
+                                            | Some (FM sub), Some cmd =>
+                                                existsb (fun g => match f_card g, mget sub (f_name g) with
+                                                                  | MapOf KBool, Some (FMap (_ :: _)) => true
+                                                                  | _, _ => false end) (m_fields cmd)
+                                            | _, _ => false end
+                                | None => false end) (m_oneofs md) then [D4FlatVariantBoolMap] else [])
       | Own FtEmpty =>
           if existsb (fun f => match empty_of f, mget m (f_name f) with
                                | Some EBNull, Some (FM []) => is_timestamp (f_kind f)
@@ -565,7 +595,12 @@ Definition predict_C05_resp (c : c04_case) : json :=
   let E := E0 pt st in
   match encode E sc tn m with
   | RUnm w => JObj [(s "unmodelled", JStr w)]
-  | r => JObj [(s "tags", tags_json c05_defect_str (defects_C05 sc tn m)); (s "resp", jres r)]
+  | r => JObj [(s "tags", tags_json c05_defect_str
+                           (dedup5 (defects_C05 sc tn m ++
+                                    (* C04 classes that already damage what the ENCODER writes *)
+                                    map D5C04 (filter (fun d => match d with D4OneofMemberIsDiscriminator | D4FlatVariantFieldIsVariant | D4FlatVariantBoolMap => true | _ => false end)
+                                                      (defects_C04 sc tn m)))));
+               (s "resp", jres r)]
   end.
 
 (* request direction: what the handler sees for the body [j] (the contract form of m) *)
